@@ -543,9 +543,33 @@ func (r *FnRun) callByContract(fr *Frame, st *State, ct *Contract, names []strin
 	if fr.c != nil && fr.old != nil {
 		for _, cl := range fr.c.CallAssume[what] {
 			aenv := r.invEnv(fr, st)
+			aenv.vars = map[string]Val{}
+			for k, v := range fr.env {
+				aenv.vars[k] = v
+			}
+			for i, a := range args {
+				aenv.vars[fmt.Sprintf("arg%d", i)] = a
+			}
 			aenv.what = "callassume " + what
 			r.assume(r.evalBool(cl.E, aenv))
 			r.note("ASSUMED before %s in %s: %s", what, shortName(r.name), cl.Src)
+		}
+	}
+	if fr.c != nil && fr.old != nil {
+		// callrequires: an obligation of the calling function at each of its
+		// calls to <callee>, over its own locals and the arguments (arg0 is the
+		// receiver of a method)
+		for _, cl := range fr.c.CallRequires[what] {
+			cenv := r.invEnv(fr, st)
+			cenv.vars = map[string]Val{}
+			for k, v := range fr.env {
+				cenv.vars[k] = v
+			}
+			for i, a := range args {
+				cenv.vars[fmt.Sprintf("arg%d", i)] = a
+			}
+			cenv.what = "callrequires " + what + " " + cl.Label
+			r.obligeClause("PRE", fmt.Sprintf("%s@%s:%s", what, where, cl.Label), cl.E, cenv, st)
 		}
 	}
 	if fr.c != nil && fr.old != nil {
@@ -941,6 +965,7 @@ func (r *FnRun) havocLoop(fr *Frame, st *State, l *loopT) {
 		}
 	}
 	r.havocEscaped(st)
+	r.havocIters(fr, st, l)
 	// linear bookkeeping cannot be carried through a loop cut; see linear.go
 	r.linearLoopCut(st)
 }
